@@ -339,7 +339,7 @@ pub fn run_main(def: CheckDef) -> ! {
                            "violation_records": []})
                 });
             rep["coverage"]["exhaustive"] = json!(false);
-            rep["coverage"]["aborted"] = json!(if hang_found { "exploration stopped at a reproducible hang; coverage is that of the last completed section checkpoint".to_string() } else { format!("exploration stopped after {} crashing attempts; coverage is that of the last completed section checkpoint", max_attempts) });
+            rep["coverage"]["aborted"] = json!(if hang_found { "exploration stopped at a reproducible hang / at a death that no further single case explains; coverage is that of the last completed section checkpoint".to_string() } else { format!("exploration stopped after {} crashing attempts; coverage is that of the last completed section checkpoint", max_attempts) });
             let have: HashSet<String> = rep["violation_records"].as_array().map(|a| a.iter().map(|v| v["case"].to_string()).collect()).unwrap_or_default();
             for e in &skip_recs {
                 let line: Value = serde_json::from_str(e["line"].as_str().unwrap_or("{}")).unwrap_or(Value::Null);
@@ -413,6 +413,13 @@ pub fn run_main(def: CheckDef) -> ! {
             let early: Vec<Value> = std::fs::read_to_string(jd.join("violations.jsonl"))
                 .map(|t| t.lines().filter_map(|l| serde_json::from_str::<Value>(l).ok()).collect())
                 .unwrap_or_default();
+            if early.is_empty() && !skip_recs.is_empty() {
+                // earlier attempts of this run attributed violations / crashes to cases; the process still dies without them
+                // (damage done by cases that do not fail on their own): report what is established
+                eprintln!("[driver] child death ({}) not attributable to a further case; reporting the {} case(s) attributed so far", st_desc, skip_recs.len());
+                hang_found = true;
+                continue;
+            }
             if early.is_empty() {
                 eprintln!("[driver] child death ({}) not attributable to a reproducible case: machinery failure", st_desc);
                 code = 2;
